@@ -25,7 +25,7 @@ ASSUMPTIONS = [
 ]
 BUDGET = {
     "quick": {"examples": 700, "wall_s": 100, "shards": 4},
-    "thorough": {"examples": 3000, "wall_s": 1200, "shards": 16},
+    "thorough": {"examples": 10000, "wall_s": 1500, "shards": 16},
 }
 
 
